@@ -40,14 +40,16 @@ class Case:
         return self.import_result
 
 
-def make_cases(ctx, n, profiles=('core', 'free'), **kw):
+def make_cases(ctx, n, profiles=('core', 'free'), docs=None, **kw):
+    """n generated documents (or the abstract documents given in `docs`), rendered, imported by the real code, counted"""
     global _DRIVER
     _DRIVER = ctx.driver
     rng = ctx.rng
-    docs = []
-    for _ in range(n):
-        p = rng.choice(list(profiles))
-        docs.append(gen.DocGen(rng, profile=p, **kw).make())
+    if docs is None:
+        docs = []
+        for _ in range(n):
+            p = rng.choice(list(profiles))
+            docs.append(gen.DocGen(rng, profile=p, **kw).make())
     gen.render_documents(ctx.driver, docs)
     cases = [Case(d) for d in docs]
     for c in cases:
